@@ -196,7 +196,6 @@ Lemma parse_out_of_range : forall y mo d hh mi ss,
   9999 < y -> parse_httpdate (ImsDate y mo d hh mi ss) = PNone.
 Proof.
   intros y mo d hh mi ss Hy. unfold parse_httpdate.
-  replace (y <? 1970) with false by (symmetry; apply Z.ltb_ge; lia).
   replace (9999 <? y) with true by (symmetry; apply Z.ltb_lt; lia).
   rewrite orb_true_r. reflexivity.
 Qed.
@@ -387,16 +386,20 @@ Proof.
 Qed.
 
 
-(* dates from 1970 on are read as written (the +2000 rule only concerns years below 1970) *)
-Lemma parse_modern : forall y mo d hh mi ss,
-  1970 <= y <= 9999 -> 1 <= mo <= 12 ->
+(* every date email.utils.parsedate can deliver for years 1..9999 is read as written (repair of C20-L4) *)
+Lemma parse_as_written : forall y mo d hh mi ss,
+  1 <= y <= 9999 -> 1 <= mo <= 12 ->
   parse_httpdate (ImsDate y mo d hh mi ss) = PSome (timegm y mo d hh mi ss).
 Proof.
   intros y mo d hh mi ss Hy Hm. unfold parse_httpdate.
-  replace (y <? 1970) with false by (symmetry; apply Z.ltb_ge; lia).
   replace ((y <? 1) || (9999 <? y) || (mo <? 1) || (12 <? mo)) with false; [reflexivity|].
   symmetry. repeat (apply orb_false_iff; split); apply Z.ltb_ge; lia.
 Qed.
+
+Example ex_before_1970 :
+  parse_httpdate (ImsDate 1969 12 31 23 59 59) = PSome (-1) /\ parse_httpdate (ImsDate 1960 1 1 0 0 0) = PSome (-315619200)
+  /\ parse_httpdate (ImsDate 100 10 1 0 0 0) = PSome (-58987872000).
+Proof. vm_compute. repeat split. Qed.
 
 (* If-Modified-Since at or after the stored timestamp: 304 (whatever If-None-Match says) *)
 Lemma step_ims_304 : forall h tps max_age st svc k inm ims up e t,
@@ -505,6 +508,32 @@ Example ex_refresh_old_date_200 :
                  {| ti_cacheable := true; ti_ts := Some {| st_ticks := 1700000500; st_repr := [50] |}; ti_size := Some 120 |} 2)).
 Proof. reflexivity. Qed.
 
+(* a request that waited for the tile lock answers with the validators and bytes of what is stored when it gets
+   the lock, whatever it had loaded before *)
+Lemma waiter_current : forall h tps ma st_loaded mid svc k inm ims up e_now st' r,
+  lookup (fst (run h tps ma st_loaded mid)) k = Some e_now ->
+  waiter h tps ma st_loaded mid (Req svc k inm ims up) = (st', Some (Resp r)) ->
+  st' = fst (run h tps ma st_loaded mid) /\ answer_for h tps e_now r.
+Proof.
+  intros h tps ma st_loaded mid svc k inm ims up e_now st' r H Hw. unfold waiter in Hw.
+  exact (step_req_cached_answer h tps ma _ svc k inm ims up e_now st' r H Hw).
+Qed.
+
+(* backends without timestamps (mbtiles / geopackage: timestamp -1 for every tile): the validators see a rewrite
+   only through the size - two stored versions of equal size and different bytes have the same ETag, and the old
+   ETag is answered 304 (reason why the property quantifies over backends WITH timestamps) *)
+Lemma timestampless_rewrite_unseen :
+  exists h tps ma k e e' r,
+    e_ts e = e_ts e' /\ e_size e = e_size e' /\ e_body e <> e_body e' /\
+    step h tps ma [(k, e')] (Req TMS k (Some (etag_of_entry h e)) ImsAbsent UErr) = ([(k, e')], Some (Resp r)) /\
+    r_status r = 304.
+Proof.
+  exists (fun s => s), 1, (Some 60), 3,
+    {| e_ts := {| st_ticks := -1; st_repr := [45; 49] |}; e_size := 700; e_body := 1 |},
+    {| e_ts := {| st_ticks := -1; st_repr := [45; 49] |}; e_size := 700; e_body := 2 |}.
+  eexists. repeat split; try discriminate.
+Qed.
+
 (* ---- ETag source ambiguity (str(timestamp) ++ str(size) is not injective) ------------------------------- *)
 Lemma etag_source_ambiguous :
   exists e1 e2, (st_ticks (e_ts e1) <> st_ticks (e_ts e2)) /\ e_size e1 <> e_size e2 /\ e_body e1 <> e_body e2 /\
@@ -541,7 +570,7 @@ Example ex_history_statuses :
 Proof. vm_compute. reflexivity. Qed.
 
 Example ex_timegm : timegm 2023 11 14 22 13 20 = 1700000000 /\ timegm 1970 1 1 0 0 0 = 0
-                    /\ parse_httpdate (ImsDate 1969 12 31 23 59 59) = PSome 63113903999.
+                    /\ parse_httpdate (ImsDate 1969 12 31 23 59 59) = PSome (-1).
 Proof. vm_compute. repeat split. Qed.
 
 Example ex_str_Z : str_Z 758 = [55; 53; 56] /\ str_Z 0 = [48] /\ str_Z (-1) = [45; 49] /\ str_Z 1000 = [49; 48; 48; 48].
